@@ -632,7 +632,10 @@ def handler (prop : String) : Handler := fun op args impl =>
       | "C04" => oracleC04 op a impl
       | "C05" => oracleC05 op a impl
       | "C06" => oracleC06 op args a impl m
-      | "C18" => oracleC18 op a impl
+      | "C18" =>
+        -- "consistently across the library": best_match must rank by the text after the LAST '-'
+        -- and the revision found there — judged by the C06 best-match oracle
+        if op == "pattern.best" then oracleC06 op args a impl m else oracleC18 op a impl
       | "C19" => oracleC19 op a impl
       | "C17" => oracleC17 args impl
       | _ => ("na", "")
